@@ -229,6 +229,7 @@ def run(repo: Repo, tier: str, res: CheckResult, seed: int = 0) -> None:
     ast_templater_structural(repo, res)
     captured_global_names(repo, res)
     namespace_exclusion(repo, res)
+    mapped_keys_are_plain(repo, res)
     res.assumptions = list(ASSUMPTIONS)
 
     from .. import genprog
@@ -686,3 +687,60 @@ def namespace_exclusion(repo: Repo, res: CheckResult) -> None:
                             "class, a field id) equal to a name of that category is not mangled, the two objects share one binding "
                             "in the generated program and one of them is used for both", fn.lineno))
     res.count("NAMESPACE.admission-tests", len(NAMESPACE_MATRIX), 3)
+
+
+def mapped_keys_are_plain(repo: Repo, res: CheckResult) -> None:
+    """The taint analysis treats `{key!r}` as a literal because repr() of a str / int IS a literal. That holds for the exact
+    types only: a member of `class K(str, Enum)` or of an IntEnum, or any subclass with its own __repr__, renders as something
+    else (`<K.RED: 'red'>`). Every key the user supplies enters through resolve_map_result; there each one has to pass through
+    a conversion to the plain type before it is put into a key path."""
+    m = repo.mod("morphing/name_layout/name_mapping")
+    fn = m.functions.get("resolve_map_result")
+    if fn is None:
+        raise AnalysisError("anchor vanished: resolve_map_result")
+    ps = func_params(fn)
+    user = ps[1] if len(ps) > 1 else "map_result"
+    res.evaluated("keys:plain-type-at-entry", True)
+    raw = []
+    for r in [x for x in ast.walk(fn) if isinstance(x, ast.Return) and x.value is not None]:
+        v = r.value
+        elts: List[ast.expr] = []
+        if isinstance(v, ast.Tuple):
+            elts = list(v.elts)
+        elif isinstance(v, ast.Call) and norm(v.func) == "tuple" and v.args and isinstance(v.args[0], (ast.GeneratorExp, ast.ListComp)):
+            comp = v.args[0]
+            derived = {t.id for g in comp.generators if any(isinstance(x, ast.Name) and x.id == user for x in ast.walk(g.iter))
+                       for t in ast.walk(g.target) if isinstance(t, ast.Name)}
+            e = comp.elt
+            arms = [e.body, e.orelse] if isinstance(e, ast.IfExp) else [e]
+            raw += [a for a in arms if isinstance(a, ast.Name) and a.id in derived]
+            continue
+        raw += [e for e in elts if isinstance(e, ast.Name) and e.id == user]
+    for e in raw:
+        res.add(Finding("C19", "KEY.subclass-reaches-repr", m.rel, "resolve_map_result", norm(e),
+                        f"the user's key `{norm(e)}` goes into the key path as it is: the generators render keys with repr(), and a key of a "
+                        "str / int SUBCLASS (a member of `class K(str, Enum)`, an IntEnum) has another repr -- the generated loader "
+                        "and dumper do not compile, or contain text chosen by the key's __repr__", e.lineno))
+    # the converter the keys pass through must produce exact types
+    conv = [c for c in ast.walk(fn) if isinstance(c, ast.Call) and isinstance(c.func, ast.Name) and c.func.id in m.functions
+            and c.func.id != "resolve_map_result"]
+    for name in sorted({c.func.id for c in conv}):
+        cf = m.functions[name]
+        for r in [x for x in ast.walk(cf) if isinstance(x, ast.Return) and x.value is not None]:
+            p0 = func_params(cf)[0]
+            if isinstance(r.value, ast.Name) and r.value.id == p0:
+                guard = _dominating_exact_type_test(m, r, p0)
+                if not guard:
+                    res.add(Finding("C19", "KEY.subclass-reaches-repr", m.rel, name, norm(r),
+                                    f"`{name}` hands the key back unchanged on a path that has not established its exact type", r.lineno))
+
+
+def _dominating_exact_type_test(m, node: ast.AST, var: str) -> bool:
+    p = m.parent(node)
+    while p is not None and not isinstance(p, ast.FunctionDef):
+        if isinstance(p, ast.If) and node in ast.walk(p) and any(node is x or node in ast.walk(x) for x in p.body):
+            t = norm(p.test).replace(" ", "")
+            if t.startswith(f"type({var})in(") or t.startswith(f"type({var})is"):
+                return True
+        p = m.parent(p)
+    return False
